@@ -24,6 +24,35 @@ func (st *State) stdlibSpecial(fn *types.Func, recv *Val, args []Val, call *ast.
 	note := func() { fc.noteAssumption("assumed model of dependency " + name + " (engine/stdlib.go)") }
 	i32 := types.Typ[types.Int32]
 	switch name {
+	case "sync.RWMutex.Lock", "sync.RWMutex.Unlock", "sync.RWMutex.RLock", "sync.RWMutex.RUnlock", "sync.Mutex.Lock", "sync.Mutex.Unlock":
+		// lock discipline: the lock state is tracked per path, keyed by the text of the mutex expression
+		fc.noteAssumption("sync.(RW)Mutex: Lock/RLock acquire and Unlock/RUnlock release the named mutex (Go memory model: accesses under a common lock are ordered); lock state is tracked per path by the mutex expression")
+		key := "?"
+		if sel, ok := ast.Unparen(call.Fun).(*ast.SelectorExpr); ok {
+			key = lockKey(exprStr(sel.X))
+		}
+		lv := st.locks[key]
+		if fn.Name() == "Lock" || fn.Name() == "RLock" {
+			// atomicity: the whole effect of a call lies in ONE critical section (a mutex is not re-acquired after
+			// it was released: check-then-act split over two sections would not be atomic)
+			st.oblige("lock", "one-critical-section("+key+")", boolStr(st.locks["#acquired:"+key] == 0), call.Pos())
+			st.locks["#acquired:"+key]++
+		}
+		switch fn.Name() {
+		case "Lock":
+			st.oblige("lock", "not-held-before-Lock("+key+")", boolStr(lv == 0), call.Pos())
+			st.locks[key] = 2
+		case "RLock":
+			st.oblige("lock", "not-held-before-RLock("+key+")", boolStr(lv == 0), call.Pos())
+			st.locks[key] = 1
+		case "Unlock":
+			st.oblige("lock", "write-held-at-Unlock("+key+")", boolStr(lv == 2), call.Pos())
+			st.locks[key] = 0
+		case "RUnlock":
+			st.oblige("lock", "read-held-at-RUnlock("+key+")", boolStr(lv == 1), call.Pos())
+			st.locks[key] = 0
+		}
+		return nil, true
 	case "unicode/utf8.DecodeRuneInString":
 		note()
 		r, w := st.decodeRune(args[0], "0")
